@@ -6,7 +6,8 @@ From Coq Require Import ZArith List Bool Relations.Relation_Operators.
 Import ListNotations.
 From ClapModel Require Import Base.Bytes Base.Machine.
 From ClapModel Require Import Parse.Cmd Parse.Build Parse.Valid Parse.Matcher Parse.Errors Parse.Validator Parse.Parser.
-From ClapModel Require Import ParseProofs.Relations ParseProofs.RelationsTree ParseProofs.RelationsClauses.
+From ClapModel Require Import ParseProofs.Relations ParseProofs.RelationsTree ParseProofs.RelationsClauses ParseProofs.RelationsComplete.
+From ClapModel Require Import ParseProofs.ValidateTotal.
 From ClapModel Require Import ParseProofs.Safe ParseProofs.Invariant ParseProofs.Totality ParseProofs.TotalityMain ParseProofs.IndexInv.
 From ClapModel Require Import ParseProofs.Globals.
 From RecordUpdate Require Import RecordSet.
@@ -362,3 +363,57 @@ Theorem C03_defaults_nonvacuous :
     /\ explicit_view (mt st) i_c = None /\ explicit_view (mt st) i_e <> None.
 Proof. exact defaults_nonvacuous. Qed.
 Print Assumptions C03_defaults_nonvacuous.
+
+(** ---------------------------------------------------------------------------------------
+    THE CONVERSE DIRECTION for two rule families (round 2; ParseProofs/RelationsComplete.v):
+    a matcher that breaks no rule is not rejected by the validator. *)
+
+(** conflicts, ALL relation graphs: if the conflict clauses (R1), (R2) hold then
+    [validate_conflicts] accepts ... *)
+Theorem C03_conflicts_complete : forall c, rel_wf c = true -> forall mt potential,
+  fm_wf mt -> conflicts_with_args c mt = Some potential -> R1 c mt -> R2 c mt ->
+  validate_conflicts c mt potential = VOk.
+Proof. exact validate_conflicts_complete. Qed.
+Print Assumptions C03_conflicts_complete.
+
+(** ... and [validate] never answers ArgumentConflict *)
+Theorem C03_no_false_conflict : forall c, rel_wf c = true -> forall mt,
+  fm_wf mt -> keys_ok c (mt_args mt) -> R1 c mt -> R2 c mt ->
+  forall a, validate c mt <> VErr EArgumentConflict a.
+Proof. exact validate_no_conflict_error. Qed.
+Print Assumptions C03_no_false_conflict.
+
+(** statically required arguments, class [static_only] (no [requires], no conditional rule, no
+    required group; conflicts / overrides / groups / exclusive arbitrary): if every statically
+    required arg is present or excused exactly as the specification says, nothing is missing *)
+Theorem C03_required_static_complete : forall c, rel_wf c = true -> static_only c = true ->
+  assert_app c = true -> forall mt potential,
+  conflicts_with_args c mt = Some potential ->
+  (forall p, In p (positionals c) -> a_index p <> None) ->
+  R3s c mt -> missing_required c mt potential = Some [].
+Proof. exact missing_required_complete_static. Qed.
+Print Assumptions C03_required_static_complete.
+
+(** on that class the validator IS the specification (the two checks that are not relations --
+    help-on-empty-argv and subcommand-required -- set aside) *)
+Theorem C03_validate_iff_static : forall c mt,
+  assert_app c = true -> static_only c = true -> fm_wf mt -> keys_ok c (mt_args mt) ->
+  (forall p, In p (positionals c) -> a_index p <> None) ->
+  negb (is_some (mt_sub mt)) && is_set s_arg_required_else_help c && is_nil (explicit_entries mt) = false ->
+  negb (is_some (mt_sub mt)) && is_set s_sub_required c = false ->
+  (validate c mt = VOk <-> Relations c mt).
+Proof. exact validate_iff_static. Qed.
+Print Assumptions C03_validate_iff_static.
+
+Theorem C03_static_nonvacuous :
+  valid s_cmd = true /\ static_only (build_self s_cmd) = true /\ pos_indexed_b (build_self s_cmd) = true
+  /\ (exists st, run_level s_cmd [dd [107;107]; dd [99;99]] = ROk st
+                 /\ fm_wf_b (mt st) = true /\ keys_ok_b (build_self s_cmd) (mt st) = true
+                 /\ validate (build_self s_cmd) (mt st) = VOk)
+  /\ (exists e st, run_level s_cmd [dd [97;97]; dd [98;98]; dd [114;114]] = RErr e st
+                 /\ fm_wf_b (mt st) = true /\ keys_ok_b (build_self s_cmd) (mt st) = true
+                 /\ validate (build_self s_cmd) (mt st) = VErr EArgumentConflict i_a)
+  /\ (exists e st, run_level s_cmd [dd [97;97]] = RErr e st
+                 /\ validate (build_self s_cmd) (mt st) = VErr EMissingRequiredArgument i_r).
+Proof. exact static_nonvacuous. Qed.
+Print Assumptions C03_static_nonvacuous.
